@@ -22,7 +22,7 @@ import SkNet.Model.Xml
 namespace SkNet.Svg
 
 inductive PyErr
-  | valueError | indexError | typeError | keyError | zeroDivisionError
+  | valueError | indexError | typeError | keyError | zeroDivisionError | unicodeEncodeError
   /-- the input is outside what the model describes (negative weights, duplicate entries) -/
   | outOfModel
 deriving DecidableEq, Repr
@@ -30,6 +30,7 @@ deriving DecidableEq, Repr
 def PyErr.show : PyErr → String
   | .valueError => "ValueError" | .indexError => "IndexError" | .typeError => "TypeError"
   | .keyError => "KeyError" | .zeroDivisionError => "ZeroDivisionError" | .outOfModel => "OutOfModel"
+  | .unicodeEncodeError => "UnicodeEncodeError"
 
 /-- places of the templates where a number is printed -/
 inductive Slot
@@ -428,13 +429,19 @@ def textLoop (ν : Nums) (side n : Nat) (names : List PyStr) (np : NamePos) : Ex
 
 structure Drawing where
   svg : List Piece
-  /-- `(path, content)` of the file written -/
-  file : Option (PyStr × PyStr)
+  /-- `(path, bytes)` of the file written -/
+  file : Option (PyStr × List Nat)
 deriving Repr
 
-/-- what `with open(filename + '.svg', 'w') as f: f.write(svg)` leaves on disk -/
-def writeFile (filename : Option PyStr) (svg : List Piece) : Drawing :=
-  ⟨svg, filename.map fun f => (f ++ py!".svg", render svg)⟩
+/-- `if filename is not None: with open(filename + '.svg', 'w', encoding='utf-8') as f: f.write(svg)`, then
+    `return svg` -/
+def writeFile (filename : Option PyStr) (svg : List Piece) : Except PyErr Drawing :=
+  match filename with
+  | none => .ok ⟨svg, none⟩
+  | some f =>
+    match utf8Encode (render svg) with
+    | some bytes => .ok ⟨svg, some (f ++ py!".svg", bytes)⟩
+    | none => .error .unicodeEncodeError
 
 /-- `n`, the entries after `adjacency.eliminate_zeros()`, and the resolved `directed` flag -/
 def graphN (a : GraphArgs) : Nat := if a.hasAdj then a.n else a.pos.length
@@ -528,7 +535,7 @@ def visualizeGraph (ν : Nums) (a : GraphArgs) : Except PyErr Drawing := do
   let edges ← graphEdgeParts ν a pos
   let nodes ← graphNodes ν (a.nodeOrder.getD (List.range n)) pos.length a.probs nodeColors
   let text ← namesText ν 0 n a.names a.namePos
-  pure (writeFile a.filename (svgDoc ν false true (edges.1.flatMap svgMarker ++ (edges.2 ++ (nodes ++ text)))))
+  writeFile a.filename (svgDoc ν false true (edges.1.flatMap svgMarker ++ (edges.2 ++ (nodes ++ text))))
 
 /-! ### `visualize_bigraph` -/
 
@@ -601,7 +608,7 @@ def visualizeBigraph (ν : Nums) (a : BigraphArgs) : Except PyErr Drawing := do
   let nodesCol ← nodeLoop ν 1 a.nCol a.probsCol colorsCol
   let textRow ← namesText ν 0 a.nRow a.namesRow .left
   let textCol ← namesText ν 1 a.nCol a.namesCol .right
-  pure (writeFile a.filename (svgDoc ν true true (edges ++ (nodesRow ++ (nodesCol ++ (textRow ++ textCol))))))
+  writeFile a.filename (svgDoc ν true true (edges ++ (nodesRow ++ (nodesCol ++ (textRow ++ textCol)))))
 
 /-! ### dendrograms -/
 
@@ -716,6 +723,6 @@ def svgDendrogram (ν : Nums) (a : DendroArgs) : Except PyErr (List Piece) := do
 
 def visualizeDendrogram (ν : Nums) (a : DendroArgs) : Except PyErr Drawing := do
   let svg ← svgDendrogram ν a
-  pure (writeFile a.filename svg)
+  writeFile a.filename svg
 
 end SkNet.Svg
